@@ -163,6 +163,12 @@ def validmac_stream(ctx, key):
         for k in sorted(set([9, 10, len(w) // 2, len(w) - 1])):
             items.append(("vmac/zip%d/bodytrunc%d" % (z, k), pyref.mint(key, zip_=z, inner_bytes=w[:k])))
         items.append(("vmac/zip%d/innertrunc" % z, pyref.mint(key, zip_=z, inner_bytes=pyref.zip_wrap(z, good[:20]))))
+        # the zip header claims MORE than the stream inflates to, and the interior's data_len reaches into that
+        # unwritten tail: must be refused ("Truncated data"), never answered with buffer contents
+        for extra in (1, 64, 5000, 600000):
+            short = pyref.inner(time0=now, data=b"q" * 40, data_len=40 + extra)
+            items.append(("vmac/zip%d/claimed-tail%d!fail" % (z, extra),
+                          pyref.mint(key, zip_=z, inner_bytes=pyref.zip_wrap(z, short, claimed=len(short) + extra))))
     # valid MAC over a header announcing a cipher but no room for IV / ciphertext
     for cipher in (2, 3, 4, 5):
         for extra in (0, 7, 8, 15, 16, 17):
